@@ -670,6 +670,11 @@ type c04Gate struct {
 	doneCh  chan byte
 	trace   []string
 	blocked int
+	quit    chan struct{}
+	gaveUp  bool
+	goidA   int64
+	goidB   int64
+	ungated int
 }
 
 func c04Actor(label string) byte {
@@ -679,14 +684,58 @@ func c04Actor(label string) byte {
 	return 'A'
 }
 
+// c04Goid returns the id of the calling goroutine (parsed from its stack
+// header; only used to tell the two request goroutines apart).
+func c04Goid() int64 {
+	var buf [64]byte
+	n := runtime.Stack(buf[:], false)
+	f := strings.Fields(string(buf[:n]))
+	if len(f) >= 2 {
+		id, _ := strconv.ParseInt(f[1], 10, 64)
+		return id
+	}
+	return -1
+}
+
 func (g *c04Gate) hook(label string) {
+	// Which request does this filesystem step belong to? Steps executed on a
+	// request's own goroutine are attributed by goroutine id; steps on helper
+	// goroutines (the pipe writer of a PUT, the trash worker) by the function
+	// named in the label.
 	a := c04Actor(label)
+	switch id := c04Goid(); id {
+	case atomic.LoadInt64(&g.goidA):
+		a = 'A'
+	case atomic.LoadInt64(&g.goidB):
+		a = 'B'
+	}
 	ch := make(chan struct{})
 	g.mu.Lock()
+	if old, ok := g.parked[a]; ok {
+		select {
+		case <-old:
+		default:
+			// another goroutine of the same request is parked already: do not
+			// gate this one (its channel would be lost)
+			g.ungated++
+			g.mu.Unlock()
+			return
+		}
+	}
 	g.parked[a] = ch
 	g.mu.Unlock()
-	g.arrive <- c04Arrival{a, label}
-	<-ch
+	// once the controller has stopped (g.quit closed) nobody may ever block
+	// here again: a goroutine parked forever would keep its flock and its
+	// buffer
+	select {
+	case g.arrive <- c04Arrival{a, label}:
+	case <-g.quit:
+		return
+	}
+	select {
+	case <-ch:
+	case <-g.quit:
+	}
 }
 
 // runSchedule releases actors according to sched. Returns the executed trace.
@@ -704,6 +753,12 @@ func (g *c04Gate) drive(sched string, finished func() (bool, bool)) {
 		case a := <-g.doneCh:
 			isDone[a] = true
 			running[a] = false
+			g.mu.Lock()
+			if g.done == nil {
+				g.done = map[byte]bool{}
+			}
+			g.done[a] = true
+			g.mu.Unlock()
 			return true
 		case <-time.After(d):
 			return false
@@ -731,7 +786,8 @@ func (g *c04Gate) drive(sched string, finished func() (bool, bool)) {
 		if len(cand) == 0 {
 			// nobody parked: wait for any event (generous; steering only)
 			if !waitEvent(20 * time.Second) {
-				return // give up; the caller reports inconclusive
+				g.gaveUp = true
+				return // give up; the caller counts it
 			}
 			continue
 		}
@@ -832,10 +888,11 @@ func c04Sched(t *testing.T, run *verifkit.Run, base string) {
 			c[0] ^= 0xff
 			vkPlant(t, e.vols[0].Root, h, c, oldT)
 		}
-		g := &c04Gate{parked: map[byte]chan struct{}{}, arrive: make(chan c04Arrival, 4), doneCh: make(chan byte, 2)}
+		g := &c04Gate{parked: map[byte]chan struct{}{}, arrive: make(chan c04Arrival, 4), doneCh: make(chan byte, 2), quit: make(chan struct{})}
 		verifSetHook(g.hook)
 		var codeA, codeB int
 		go func() {
+			atomic.StoreInt64(&g.goidA, c04Goid())
 			if sc.A == "put" {
 				codeA = e.do("PUT", "/"+h, data).Code
 			} else {
@@ -848,6 +905,7 @@ func c04Sched(t *testing.T, run *verifkit.Run, base string) {
 			g.doneCh <- 'A'
 		}()
 		go func() {
+			atomic.StoreInt64(&g.goidB, c04Goid())
 			if sc.B == "delete" {
 				codeB = e.do("DELETE", "/"+h, nil).Code
 			} else {
@@ -866,16 +924,24 @@ func c04Sched(t *testing.T, run *verifkit.Run, base string) {
 		}()
 		g.drive(sc.Schedule, nil)
 		verifSetHook(nil)
-		// release anything still parked (only after a give-up)
-		g.mu.Lock()
-		for _, ch := range g.parked {
-			select {
-			case <-ch:
-			default:
-				func() { defer func() { recover() }(); close(ch) }()
+		close(g.quit) // releases anything still parked, now and later
+		if g.gaveUp {
+			run.Count("sched_controller_gave_up", 1)
+			// let both requests finish before the next case (bounded)
+			deadline := time.After(60 * time.Second)
+			g.mu.Lock()
+			pending := 2 - len(g.done)
+			g.mu.Unlock()
+			for pending > 0 {
+				select {
+				case <-g.doneCh:
+					pending--
+				case <-deadline:
+					run.Inconclusive("sched: a request did not finish within 60 s after the controller gave up; schedule " + sc.Schedule)
+					pending = 0
+				}
 			}
 		}
-		g.mu.Unlock()
 		tr := strings.Join(g.trace, " ")
 		key := sc.A + "/" + sc.B + "/" + sc.Init + "/" + sc.Lifetime + ":" + tr
 		if !distinct[key] {
@@ -884,6 +950,7 @@ func c04Sched(t *testing.T, run *verifkit.Run, base string) {
 		}
 		run.Count("schedules_run", 1)
 		run.Count("flock_blocked_detours", g.blocked)
+		run.Count("sched_ungated_concurrent_steps", g.ungated)
 		hasB := false
 		hasA := false
 		for _, s := range g.trace {
